@@ -255,11 +255,11 @@ func checkFILETIMETicks(tk *big.Int, boundary bool, i int) {
 		r.Eval(5)
 		// inverse: time -> FILETIME gives the same structure
 		back := ds.NewFILETIMEFromTime(time.Unix(wsec, wnsec))
-		if *back != *ft {
+		if !mon.ExportedEqual(*back, *ft) {
 			r.Violation("FILETIME.NewFILETIMEFromTime:value:"+reg, fmt.Sprintf("time %s: got ticks %d want %s", fmtRef(wsec, wnsec), back.ToInt64(), tk), cs)
 		}
 		// and the library's own composition
-		if rt := ds.NewFILETIMEFromTime(got); *rt != *ft && sameInstant(got, wsec, wnsec) {
+		if rt := ds.NewFILETIMEFromTime(got); !mon.ExportedEqual(*rt, *ft) && sameInstant(got, wsec, wnsec) {
 			r.Violation("FILETIME.NewFILETIMEFromTime:inverse:"+reg, fmt.Sprintf("NewFILETIMEFromTime(GetTime(%s)) = %d", tk, rt.ToInt64()), cs)
 		}
 		r.Eval(2)
@@ -272,12 +272,12 @@ func checkFILETIMETicks(tk *big.Int, boundary bool, i int) {
 		}
 		var ft2 ds.FILETIME
 		n, err := ft2.Unmarshal(wantB[:])
-		if err != nil || n != 8 || ft2 != *ft {
+		if err != nil || n != 8 || !mon.ExportedEqual(ft2, *ft) {
 			r.Violation("FILETIME.Unmarshal:value", fmt.Sprintf("ticks %s: Unmarshal -> %+v n=%d err=%v", tk, ft2, n, err), cs)
 		}
 		r.Eval(2)
 		// reading a value in all these ways has not changed it
-		if orig := ftFromTicks(tk); *ft != *orig {
+		if orig := ftFromTicks(tk); !mon.ExportedEqual(*ft, *orig) {
 			r.Violation("FILETIME:value-changed-by-reading", fmt.Sprintf("ticks %s: after the getters and Marshal the structure holds %d", tk, ft.ToInt64()), cs)
 		}
 	})
@@ -346,15 +346,22 @@ func familyFILETIME() {
 		checkFILETIMETime(tk, j, sub, false)
 	}
 	// values with the top bit set: ToInt64 is a signed API (not demanded), but nothing may panic
-	for _, u := range []uint64{1 << 63, 1<<63 + 1, 1<<64 - 1, 0x8000000080000000, 0xFFFFFFFF00000000} {
+	for _, u := range []uint64{1 << 63, 1<<63 + 1, 1<<64 - 1, 0x8000000080000000, 0xFFFFFFFF00000000, 0xFE624E212AC18000, 0xFFFFFFFFFF676980, 0xF000000000000000, 0xC000000000000001} {
 		ft := &ds.FILETIME{DwLowDateTime: uint32(u), DwHighDateTime: uint32(u >> 32)}
 		guard("FILETIME.topbit", map[string]any{"raw": fmt.Sprintf("%#x", u)}, func() {
 			_ = ft.ToInt64()
-			_ = ft.GetTime()
+			got := ft.GetTime()
 			_ = ft.GetUnixTimestamp()
 			_ = ft.String()
+			// whichever reading of such a value the library takes (a signed count: before 1601; an
+			// unsigned one: tens of thousands of years ahead), its two directions take the same one
+			back := ds.NewFILETIMEFromTime(got)
+			r.Eval(1)
+			if !mon.ExportedEqual(*back, *ft) {
+				r.Violation("FILETIME.NewFILETIMEFromTime:inverse:topbit", fmt.Sprintf("FILETIME %#x: GetTime()=%s, NewFILETIMEFromTime of that = %#x", u, fmtT(got), uint64(back.DwHighDateTime)<<32|uint64(back.DwLowDateTime)), map[string]any{"raw": fmt.Sprintf("%#x", u)})
+			}
 		})
-		r.Count("filetime_topbit_panic_only", 1)
+		r.Count("filetime_topbit_values", 1)
 	}
 }
 
@@ -940,7 +947,7 @@ func main() {
 	r.Assume(
 		"math/big, strconv and the time package of the Go standard library are correct (time.Unix/Unix()/Nanosecond() are the bridge between big-integer arithmetic and time.Time)",
 		"the 1601 and 1582 epoch offsets are recomputed from civil day counts (134774 and 141427 days before 1970-01-01) and must equal the published constants, else inconclusive",
-		"FILETIME domain is ticks 0..2^63-1 (ToInt64 is a signed API); top-bit-set values are only required not to panic",
+		"FILETIME domain is ticks 0..2^63-1 (ToInt64 is a signed API); for top-bit-set values no particular reading is demanded, only no panic and that NewFILETIMEFromTime(GetTime(x)) gives x back",
 		"NewDateTime(0) is the documented 'now' sentinel and is not judged",
 		"ConvertLDAPTimeStampToUnixTimeStamp below 1970: the documented clamp to 0 is accepted as well as the exact value",
 		"ConvertUnixTimeStampToLDAPTimeStamp: the documented whole-second result is accepted as well as the exact tick count",
